@@ -437,7 +437,9 @@ func checkErrCell(e *Env, rule, q string) {
 		eds = append(eds, errDefer{d, cell, names})
 	})
 	if len(eds) == 0 {
-		e.R.Undecided(rule, q+":error-cell-cleanup", e.fpos(f), "no deferred error-cell cleanup found any more; update the rule table")
+		// no deferred clean-up that reads an error cell: the clean-up is then explicit on the error exits, which the pairing obligation
+		// of this registration site decides ("every error exit after the registration removes the same key")
+		e.R.OkTrivial(rule, q+":error-cell-cleanup", e.fpos(f), "no deferred error-cell clean-up in this function; explicit clean-up on error exits is decided by the pairing obligation of the site")
 		return
 	}
 	for _, ed := range eds {
